@@ -1,9 +1,8 @@
 """Exact-arithmetic helpers (fractions / decimal) for the Angle and numeric
 oracles."""
-from decimal import Decimal, getcontext
+from decimal import Decimal, localcontext
 from fractions import Fraction
 
-getcontext().prec = 60
 PI = Fraction("3.14159265358979323846264338327950288419716939937510582097494")
 F360 = Fraction(360)
 
@@ -31,6 +30,14 @@ def cong_err(value, exact):
 def real_pow(a, b):
     """a ** b as a Fraction-ish (Decimal-backed) real, or None when the real
     power does not exist / is not finite.  a, b floats or ints."""
+    with localcontext() as ctx:
+        # (a context of its own: some shards run the library under a hostile
+        # process-wide decimal context)
+        ctx.prec = 60
+        return _real_pow(a, b)
+
+
+def _real_pow(a, b):
     try:
         if a == 0:
             if b > 0:
